@@ -59,8 +59,12 @@ def check(prog, run):
                     why = ""
                     if name != home:
                         why = "only %s may import the %s binding" % (home, top)
-                    elif in_func or not tries:
-                        why = "the import of the optional binding is not guarded by try/except ImportError at module level"
+                    elif in_func or any(isinstance(x, ast.If) for x in chain):
+                        # imported on demand inside a function, or under a condition (a presence test such as
+                        # importlib.util.find_spec): whether the module still imports without the binding is decided below (b)
+                        good = True
+                    elif not tries:
+                        why = "the import of the optional binding is not guarded (no try/except ImportError, no presence test)"
                     else:
                         t = tries[-1]
                         catches = False
@@ -113,7 +117,11 @@ def check(prog, run):
             val = p2.module(home).env.get(flag)
             want = b not in missing
             c = "%s.%s (%s)" % (home, flag, label)
-            if val is want:
+            if flag not in p2.module(home).env:
+                # the module keeps its presence test under another name (or none): what matters -- refusal when the binding
+                # is missing, the device opened when it is there -- is decided by the constructor scenarios below
+                run.ok("presence-flag", c + " [no such name: decided through the constructors]", nontrivial=False)
+            elif val is want:
                 run.ok("presence-flag", c)
             else:
                 run.violation("presence-flag", c, "%s is %r when the %s binding is %s" % (flag, val, b, "present" if want else "missing"),
